@@ -20,6 +20,7 @@ import (
 	"errors"
 	"fmt"
 	"math/big"
+	"os"
 	"sort"
 	"sync"
 	"testing"
@@ -339,10 +340,11 @@ type c11Side struct {
 }
 
 type c11Alert struct {
-	From  string `json:"from"`
-	Level int    `json:"level"`
-	Desc  int    `json:"desc"`
-	Epoch int    `json:"epoch"`
+	From    string `json:"from"`
+	Level   int    `json:"level"`
+	Desc    int    `json:"desc"`
+	Epoch   int    `json:"epoch"`
+	Wrapped bool   `json:"wrapped"` // sent as an unencrypted tls12_cid record
 }
 
 type c11Case struct {
@@ -361,6 +363,7 @@ type c11Case struct {
 	SH      c11Hello   `json:"sh"` // last non-HRR ServerHello on the wire
 	HRRSeen bool       `json:"hrr_seen"`
 	HVRSeen bool       `json:"hvr_seen"`
+	SHDSeen bool       `json:"shd_seen"`
 	SKESig  int        `json:"ske_sig"` // DTLS 1.2 ServerKeyExchange signature scheme id (0 = none seen)
 	SKECrv  int        `json:"ske_curve"`
 	CVSig   int        `json:"cv_sig"` // DTLS 1.2 client CertificateVerify scheme id (0 = none seen)
@@ -456,15 +459,43 @@ type c11Wire struct {
 	have map[string][]bool
 	done map[string]bool
 	res  *c11Case
+	cidC int // length of the CID the client expects on records addressed to it
+	cidS int
 }
 
 func newC11Wire(res *c11Case) *c11Wire {
-	return &c11Wire{frag: map[string][]byte{}, have: map[string][]bool{}, done: map[string]bool{}, res: res}
+	w := &c11Wire{frag: map[string][]byte{}, have: map[string][]bool{}, done: map[string]bool{}, res: res}
+	if res.C.CID > 0 {
+		w.cidC = res.C.CID
+	}
+	if res.S.CID > 0 {
+		w.cidS = res.S.CID
+	}
+
+	return w
 }
 
 func (w *c11Wire) feed(d vDatagram) {
-	for _, r := range vParseDatagram(d.Data, 0) {
+	cidLen := w.cidS
+	if d.From == "server" {
+		cidLen = w.cidC
+	}
+	for _, r := range vParseDatagram(d.Data, cidLen) {
 		if r.Uni || r.CT < 0 {
+			continue
+		}
+		if r.CT == int(protocol.ContentTypeConnectionID) {
+			// unencrypted inner plaintext: content || real type || zero padding
+			inner := r.Raw[13+cidLen:]
+			for len(inner) > 0 && inner[len(inner)-1] == 0 {
+				inner = inner[:len(inner)-1]
+			}
+			if r.Epoch == 0 && len(inner) == 3 && inner[2] == byte(protocol.ContentTypeAlert) && inner[0] <= 2 {
+				w.res.Alerts = append(w.res.Alerts, c11Alert{
+					From: d.From, Level: int(inner[0]), Desc: int(inner[1]), Epoch: r.Epoch, Wrapped: true,
+				})
+			}
+
 			continue
 		}
 		body := r.Raw[13:]
@@ -555,6 +586,10 @@ func (w *c11Wire) message(from string, typ handshake.Type, body []byte) {
 		}
 		c11ParseHelloExts(&h, m.Extensions)
 		res.SH = h
+	case handshake.TypeServerHelloDone:
+		if from == "server" {
+			res.SHDSeen = true
+		}
 	case handshake.TypeServerKeyExchange:
 		if from != "server" || !res.SH.Seen || len(res.SH.Suites) != 1 {
 			return
@@ -992,7 +1027,8 @@ func c11GenPair(r *vRand, breakDim string) (c, s c11Cfg, resume bool) {
 
 			return 2
 		}
-		if lo(cr) <= hi(sr) && lo(sr) <= hi(cr) {
+		bothDual := lo(cr) == 2 && hi(cr) == 3 && lo(sr) == 2 && hi(sr) == 3
+		if lo(cr) <= hi(sr) && lo(sr) <= hi(cr) && !(bothDual && r.chance(85)) {
 			break
 		}
 	}
@@ -1003,12 +1039,21 @@ func c11GenPair(r *vRand, breakDim string) (c, s c11Cfg, resume bool) {
 	// authentication mode
 	mode := r.intn(10) // 0-5 cert, 6-8 psk, 9 ecdhe-psk
 	key := 1 + r.intn(3)
+	if common13 && key == 3 && r.chance(75) {
+		key = 1 + r.intn(2) // an RSA key cannot complete DTLS 1.3 (CertificateVerify is not encodable): keep it rare
+	}
 	switch {
 	case mode <= 5 || common13:
 		s.Key = key
 		if r.chance(25) {
 			s.ClientAuth = 1 + r.intn(4)
 			c.Key = 1 + r.intn(3)
+			if common13 && c.Key == 3 && r.chance(75) {
+				c.Key = 1 + r.intn(2)
+			}
+			if r.chance(15) {
+				c.Key = 0
+			}
 		}
 		c.SkipVerify = r.chance(30)
 		var c12, s12 []int
@@ -1283,6 +1328,9 @@ func c11GenRandom(r *vRand) (c, s c11Cfg, resume bool) {
 		if !isClient && d.Key == 0 && !d.PSK {
 			d.Key = 1 + r.intn(3)
 		}
+		if isClient && d.PSK {
+			d.Key = 0
+		}
 		if !isClient && r.chance(20) {
 			d.ClientAuth = r.intn(5)
 		}
@@ -1333,7 +1381,7 @@ func c11Lattice() []c11Job {
 	}
 	dims := []dim{
 		{"cver", func(c, _ *c11Cfg, v int) { c.Min, c.Max = 0, []int{0, 3}[v] }},
-		{"sver", func(_, s *c11Cfg, v int) { s.Min, s.Max = 0, []int{0, 3}[v] }},
+		{"sver", func(_, s *c11Cfg, v int) { s.Min, s.Max = []int{0, 3}[v], []int{0, 3}[v] }},
 		{"csuites", func(c, _ *c11Cfg, v int) {
 			if v == 1 {
 				c.SuitesSet, c.Suites = true, []int{0xc02c, 0xc02b, 0x1302, 0x1301}
@@ -1425,6 +1473,9 @@ func TestVerifC11(t *testing.T) {
 	if vIsThorough() {
 		n = 12000
 	}
+	if v := os.Getenv("VERIF_C11_N"); v != "" {
+		fmt.Sscanf(v, "%d", &n)
+	}
 	jobs := c11Jobs(r, n)
 	// every break dimension at least a few times, deterministic part
 	for _, d := range c11BreakDims {
@@ -1446,6 +1497,97 @@ func TestVerifC11(t *testing.T) {
 	}
 	jobs = append(jobs, lat...)
 	for i, j := range jobs {
+		j := j
+		var res c11Case
+		vBubble(t, func(t *testing.T) { res = runC11(t, i, j.gen, j.c, j.s, j.resume, nil) })
+		out.emit(res)
+	}
+}
+
+// c11RegressPairs: one fixed pair per behaviour the check has to keep seeing (controls first).
+func c11RegressPairs() []c11Job {
+	var jobs []c11Job
+	add := func(name string, f func(c, s *c11Cfg)) {
+		var c, s c11Cfg
+		c.CID, s.CID = -1, -1
+		f(&c, &s)
+		jobs = append(jobs, c11Job{gen: "regress:" + name, c: c, s: s})
+	}
+	add("control-cert12", func(_, s *c11Cfg) { s.Key = 1 })
+	add("control-cert13", func(c, s *c11Cfg) { s.Key = 2; c.Min, c.Max, s.Min, s.Max = 3, 3, 3, 3 })
+	add("control-dualclient-12server", func(c, s *c11Cfg) { s.Key = 1; c.Min, c.Max = 2, 3 })
+	add("control-12client-dualserver", func(_, s *c11Cfg) { s.Key = 1; s.Min, s.Max = 2, 3 })
+	add("control-13client-dualserver", func(c, s *c11Cfg) { s.Key = 1; c.Min, c.Max, s.Min, s.Max = 3, 3, 2, 3 })
+	add("control-dualclient-13server", func(c, s *c11Cfg) { s.Key = 1; c.Min, c.Max, s.Min, s.Max = 2, 3, 3, 3 })
+	// the server's suite list is wiped out by its own key type: HandshakeContext returns without an alert
+	add("server-suites-empty-after-key-filter", func(_, s *c11Cfg) {
+		s.Key = 1
+		s.SuitesSet, s.Suites = true, []int{0xc02f}
+	})
+	// ... or by the negotiated version on a dual-stack server
+	add("server-suites-empty-after-version-filter", func(_, s *c11Cfg) {
+		s.Key = 1
+		s.Min, s.Max = 2, 3
+		s.SuitesSet, s.Suites = true, []int{0x1301, 0xc02f}
+	})
+	add("rsa-server-dtls13", func(c, s *c11Cfg) { s.Key = 3; c.Min, c.Max, s.Min, s.Max = 3, 3, 3, 3 })
+	add("rsa-client-dtls13", func(c, s *c11Cfg) {
+		s.Key, c.Key, s.ClientAuth = 1, 3, 2
+		c.Min, c.Max, s.Min, s.Max = 3, 3, 3, 3
+	})
+	add("dual-stack-both", func(c, s *c11Cfg) { s.Key = 1; c.Min, c.Max, s.Min, s.Max = 2, 3, 2, 3 })
+	add("dual-client-13server-skip-hello-verify", func(c, s *c11Cfg) {
+		s.Key = 1
+		c.Min, c.Max, s.Min, s.Max = 2, 3, 3, 3
+		c.Curves = []int{29}
+		s.SkipHV = true
+	})
+	add("alert-with-connection-id", func(c, s *c11Cfg) {
+		s.Key = 2
+		c.Sigs, s.Sigs = []int{0x0403}, []int{0x0503, 0x0403}
+		c.CID, s.CID = 0, 4
+	})
+	add("alpn-disjoint-dtls13", func(c, s *c11Cfg) {
+		s.Key = 1
+		c.Min, c.Max, s.Min, s.Max = 3, 3, 3, 3
+		c.ALPN, s.ALPN = []int{1}, []int{2}
+	})
+	add("alpn-disjoint-dtls12", func(c, s *c11Cfg) { s.Key = 1; c.ALPN, s.ALPN = []int{1}, []int{2} })
+	add("client-certificate-verify-scheme", func(c, s *c11Cfg) {
+		s.Key, c.Key, s.ClientAuth = 1, 2, 2
+		c.SkipVerify = true
+		c.Sigs = []int{0x0503, 0x0807}
+	})
+	add("server-ignores-client-signature-algorithms", func(c, s *c11Cfg) {
+		s.Key = 2
+		c.Sigs, s.Sigs = []int{0x0403}, []int{0x0503, 0x0403}
+	})
+	add("ems-required-vs-disabled", func(c, s *c11Cfg) { s.Key = 1; c.EMS, s.EMS = 1, 2 })
+	add("ems-disabled-vs-required", func(c, s *c11Cfg) { s.Key = 1; c.EMS, s.EMS = 2, 1 })
+	add("no-common-curve-12", func(c, s *c11Cfg) { s.Key = 1; c.Curves, s.Curves = []int{29}, []int{23} })
+	add("no-common-curve-13", func(c, s *c11Cfg) {
+		s.Key = 1
+		c.Min, c.Max, s.Min, s.Max = 3, 3, 3, 3
+		c.Curves, s.Curves = []int{29}, []int{23}
+	})
+	add("no-common-srtp", func(c, s *c11Cfg) { s.Key = 1; c.SRTP, s.SRTP = []int{1}, []int{7} })
+	add("srtp-only-client", func(c, s *c11Cfg) { s.Key = 1; c.SRTP = []int{1} })
+	add("srtp-only-server", func(_, s *c11Cfg) { s.Key = 1; s.SRTP = []int{1} })
+	add("version-12-vs-13", func(_, s *c11Cfg) { s.Key = 1; s.Min, s.Max = 3, 3 })
+	add("version-13-vs-12", func(c, s *c11Cfg) { s.Key = 1; c.Min, c.Max = 3, 3 })
+	add("psk-client-cert-server", func(c, s *c11Cfg) {
+		s.Key = 1
+		c.PSK, c.Hint = true, true
+		c.SuitesSet, c.Suites = true, []int{0x00a8}
+	})
+
+	return jobs
+}
+
+func TestVerifC11Regress(t *testing.T) {
+	out := newVOut(t)
+	c11GetCreds()
+	for i, j := range c11RegressPairs() {
 		j := j
 		var res c11Case
 		vBubble(t, func(t *testing.T) { res = runC11(t, i, j.gen, j.c, j.s, j.resume, nil) })
